@@ -56,6 +56,9 @@ type Property struct {
 	MaxWorkers int
 	// HangSeconds overrides the per-case watchdog (default 30).
 	HangSeconds int
+	// HangKey, if set, narrows the finding key of a hang ("hang" + HangKey(case)): a hang is attributed by the
+	// parent, which has only the case to classify it by.
+	HangKey func(c any) string
 	// Post is run by the parent after all workers finished; it may add
 	// fields to the coverage object.
 	Post func(cov map[string]any)
